@@ -275,6 +275,18 @@ def standin_results_roundtrip(tier, seed):
             if not np.array_equal(back.records["k"], recs) or back.params != r.params:
                 fails.append(dict(args=dict(repetitions=reps, instances=instances, order=repr(order)), failed="results-roundtrip",
                                   clause="results_from_proto(results_to_proto(r)) != r"))
+            # the decoded result as the job layer hands it on (an EngineResult carrying the job's id): the same records
+            if reps in (0, 1, 5, 64):
+                try:
+                    import datetime
+
+                    import cirq_google
+
+                    er = cirq_google.EngineResult.from_result(back, job_id="job-1")
+                    if not np.array_equal(er.records["k"], recs) or er.params != r.params or er.job_id != "job-1":
+                        fails.append(dict(args=dict(repetitions=reps, instances=instances), failed="results-engine-result", clause="EngineResult.from_result(decoded result) does not carry the decoded records"))
+                except Exception as ex:
+                    fails.append(dict(args=dict(repetitions=reps, instances=instances), failed="results-engine-result", clause=f"EngineResult.from_result(decoded result) raised {ex!r}"))
     return dict(function="cirq-google/cirq_google/api/v2/results.py:results_to_proto/results_from_proto", case="results-roundtrip",
                 bound="repetitions 0..20, 63, 64, 65 x instances 1..3 x permuted qubit order x grid / line / mixed qubit types", cases=cases, distinct=cases, failures=len(fails), exhaustive=False, _fails=fails[:3])
 standin_results_roundtrip.prop = "C16"
